@@ -1,6 +1,6 @@
 (* C13 - a finished request leaves nothing behind, however it finished. *)
 From Coq Require Import NArith List Bool.
-From ZB Require Import Api.Api Api.ApiProofs.
+From ZB Require Import Api.Api Api.ApiProofs Api.ApiCancel.
 Import ListNotations.
 Open Scope N_scope.
 
@@ -34,3 +34,13 @@ Example C13_instance :
   map (fun r => (r_id r, r_phase r)) (reqs s) = [(1%nat, PDone OCancelled); (2%nat, PDone OCancelled); (3%nat, PDone ORsp)]
   /\ waiters s = [].
 Proof. vm_compute. split; reflexivity. Qed.
+
+(* a request cancelled by its caller - wherever it is: queued for the blocking lock, queued for the message lock, waiting
+   for an acknowledgement, waiting for its response - ends with CancelledError; cancelling an ended request is void *)
+Theorem C13_cancelled_request_ends_cancelled : forall s rid r,
+  get s rid = Some r -> is_done r = false -> In (OE rid OCancelled) (log (step s (ECancel rid))).
+Proof. exact cancelled_request_ends_cancelled. Qed.
+Print Assumptions C13_cancelled_request_ends_cancelled.
+Theorem C13_cancel_after_the_end_is_void : forall s rid r, get s rid = Some r -> is_done r = true -> step s (ECancel rid) = s.
+Proof. exact cancel_after_the_end_is_void. Qed.
+Print Assumptions C13_cancel_after_the_end_is_void.
